@@ -11,6 +11,9 @@ package main
 import (
 	"fmt"
 	"math/bits"
+	"strings"
+
+	"github.com/Fantom-foundation/lachesis-base/kvdb"
 
 	"github.com/Fantom-foundation/lachesis-base/hash"
 	"github.com/Fantom-foundation/lachesis-base/inter/idx"
@@ -44,6 +47,24 @@ func firstDiff(a, b string) string {
 }
 
 func dbState(n *cons.Node) string {
+	if n.Cfg.LibMemDB {
+		dump := func(db kvdb.Store) string {
+			var sb strings.Builder
+			it := db.NewIterator(nil, nil)
+			defer it.Release()
+			for it.Next() {
+				fmt.Fprintf(&sb, "%x=%x,", it.Key(), it.Value())
+			}
+			return sb.String()
+		}
+		s := "main{" + dump(n.LibMain) + "}"
+		for e := idx.Epoch(1); e < 8; e++ {
+			if db, ok := n.LibEpoch[e]; ok {
+				s += fmt.Sprintf("epoch%d{%s}", e, dump(db))
+			}
+		}
+		return s
+	}
 	s := "main{" + kv.Contents(n.MainDB.M) + "}"
 	for e := idx.Epoch(1); e < 8; e++ {
 		if db, ok := n.EpochDB[e]; ok {
@@ -332,7 +353,9 @@ func main() {
 			if !c.Mine(item) || c.OutOfBudget() {
 				return
 			}
-			checkDAG(c, d, fmt.Sprintf("F-all/F-fork weights=%v N=%d forks<=%d", g.Weights, g.N, g.ForkBudget), cons.DefaultConfig(), 1)
+			cfg := cons.DefaultConfig()
+			cfg.LibMemDB = item%2 == 0 // alternately over the library's own memorydb (see cons.Config)
+			checkDAG(c, d, fmt.Sprintf("F-all/F-fork weights=%v N=%d forks<=%d memorydb=%v", g.Weights, g.N, g.ForkBudget, cfg.LibMemDB), cfg, 1)
 			if item%2001 == 1 {
 				c.Sample(map[string]interface{}{"dag": d.String()})
 			}
@@ -345,7 +368,9 @@ func main() {
 	for _, r := range rounds {
 		r := r
 		cons.GenRounds(r, func(i int) bool { return c.Mine(i) && !c.OutOfBudget() }, func(d *lref.DAG, desc string) {
-			checkDAG(c, d, "F-round "+desc, cons.DefaultConfig(), 1)
+			cfg := cons.DefaultConfig()
+			cfg.LibMemDB = true
+			checkDAG(c, d, "F-round (memorydb) "+desc, cfg, 1)
 		})
 	}
 	c.Set("exhaustive", !c.Capped())
